@@ -303,7 +303,7 @@ func (s *session) snapshot() *snap {
 // ---------------------------------------------------------------- C05: the six clauses on the real node
 
 func (s *session) oracleC05(sn *snap) {
-	if s.e.prop != "C05" {
+	if s.e.prop == "C07" {
 		// the C07 run keeps only the clause it depends on (state root) as a counter, not as a failure
 		return
 	}
